@@ -1114,6 +1114,8 @@ func (r *Rig) Run(sc *Scenario, index int) *Result {
 	// wait for completion or for the liveness bound, measured from the last
 	// fault that fired
 	tick := time.NewTicker(5 * time.Millisecond)
+	var lastMoved int64 = -1
+	lastProgress := time.Now()
 	for range tick.C {
 		all := true
 		for _, s := range sr.sess {
@@ -1136,10 +1138,21 @@ func (r *Rig) Run(sc *Scenario, index int) *Result {
 			// recorded as app.rerr / app.werr; waiting for the bound adds nothing
 			break
 		}
+		// progress: bytes verified at either end, in any session
+		var moved int64
+		for _, s := range sr.sess {
+			moved += atomic.LoadInt64(&s.got[0]) + atomic.LoadInt64(&s.got[1]) + int64(atomic.LoadInt32(&s.done[0])+atomic.LoadInt32(&s.done[1]))
+		}
+		if moved != lastMoved {
+			lastMoved, lastProgress = moved, time.Now()
+		}
 		sr.omu.Lock()
 		lf := sr.lastFault
 		sr.omu.Unlock()
-		if time.Since(lf) > bound {
+		// a stall: the bound has passed since the last fault AND nothing at all
+		// has moved for that long (a slow but moving transfer on a loaded
+		// machine is not a stall)
+		if time.Since(lf) > bound && time.Since(lastProgress) > bound {
 			res.Stalled = true
 			break
 		}
